@@ -157,3 +157,39 @@ func r1GenC04ReqMatch(r *rng, n int, w *bufio.Writer) {
 			q.SortedClientTags, q.ClientName, q.ClientIP, q.Domain, q.SourceDomain, q.ThirdParty)
 	}
 }
+
+// r1C06SuffixScenario (c06.engine): the request http://e.org/ad.js from a page whose host lives below a public suffix
+// (ICANN multi-label, private section, plain TLD).  The `$domain` values of the rules name that SUFFIX, the page's
+// host, a sibling, or are negated; the patterns are mostly too short for a lookup shortcut (such rules are indexed by
+// their `$domain` values), the others go through the shortcuts table.  Referrer-level exceptions are written on the
+// page's host.
+func r1C06SuffixScenario(r *rng) c06Scenario {
+	suf := pick(r, r1SuffixDomains)
+	host := pick(r, []string{"user.", "shop.", "www.user."}) + suf
+	pool := m2Pool("r1 suffix "+host, func() []string {
+		pats := []string{"/ad.", "*", ".js", "/ad/", "||e.org^"}
+		c06PatFamilies = append(c06PatFamilies, pats)
+		doms := []string{"", "domain=" + suf, "domain=" + suf + "|other.org", "domain=" + host, "domain=~other.org", "domain=sibling." + suf}
+		var ts []string
+		for _, p := range pats {
+			ts = append(ts, c06PoolDoms(p, false, doms)...)
+		}
+
+		return c06RequestPool(ts)
+	})
+	spool := m2Pool("r1 suffix src "+host, func() []string {
+		pats := []string{"||" + host + "^", "||" + host + "/", "||" + host + "/page"}
+		c06PatFamilies = append(c06PatFamilies, pats)
+
+		return c06PoolOver(false, pats...)
+	})
+	sc := c06Scenario{web: true, url: "http://e.org/ad.js", src: pick(r, []string{"http://", "https://"}) + host + "/page"}
+	sc.ts = append(c06Multiset(r, pool, 6), c06Multiset(r, spool, 3)...)
+	// make sure a `$domain=<suffix>` rule is there most of the time
+	if r.chance(2, 3) {
+		sc.ts = append(sc.ts, pick(r, []string{"", "", "@@"})+pick(r, []string{"/ad.", "*", ".js", "/ad/"})+"$"+pick(r, []string{"", "script,", "important,"})+"domain="+suf)
+	}
+	shuffle(r, sc.ts)
+
+	return sc
+}
